@@ -6,6 +6,7 @@ specification on boundary and pseudo-random inputs and prints each difference as
 (Not part of any theorem; it only turns a broken tie into a concrete failing state.)
 -/
 import Cascette.Generated.CryptoSrc
+import Cascette.Spec.Rc4
 open Cascette
 
 def lcg (s : Nat) : Nat := (s * 6364136223846793005 + 1442695040888963407) % 2 ^ 64
@@ -22,6 +23,11 @@ def showS (s : Spec.Salsa20.S) : String :=
   toString [s.x0.toNat, s.x1.toNat, s.x2.toNat, s.x3.toNat, s.x4.toNat, s.x5.toNat, s.x6.toNat,
     s.x7.toNat, s.x8.toNat, s.x9.toNat, s.x10.toNat, s.x11.toNat, s.x12.toNat, s.x13.toNat,
     s.x14.toNat, s.x15.toNat]
+
+/-- same function, evaluated once into a table (keeps the closure chains of `Spec.Rc4.swap` short). -/
+def tabulate (S : Spec.Rc4.Perm) : Spec.Rc4.Perm :=
+  let t : Array Nat := Array.ofFn (n := 256) fun x => S x.val
+  fun x => if x < 256 then t.getD x 0 else S x
 
 def main : IO Unit := do
   -- counter: generated update vs 64-bit little-endian increment, at and around the carry
@@ -61,4 +67,84 @@ def main : IO Unit := do
         if Generated.hashlittle2_tail a b c k ≠ want then
           IO.println s!"FAIL hashlittle2_tail len={n} k={k.map (·.toNat)} a={a.toNat} b={b.toNat} c={c.toNat}"
     | _ => pure ()
+  -- ARC4: translated guard / KSA / PRGA / apply body against textbook RC4 (Spec/Rc4)
+  for len in [0, 1, 2, 255, 256, 257, 300] do
+    let g : Bool := decide (Generated.arc4_key_rejected len)
+    let want : Bool := !(decide (1 ≤ len ∧ len ≤ 256))
+    if g ≠ want then
+      IO.println s!"FAIL arc4_key_rejected key.len()={len} generated-rejects={g} rc4-key-lengths-1..256-rejects={want}"
+  let forRange {σ : Type} (body : σ → Nat → σ) (lo hi : Nat) (x : σ) : σ :=
+    (List.range (hi - lo)).foldl (fun x k => body x (lo + k)) x
+  let s0 := forRange Generated.arc4_init_body Generated.arc4_init_lo Generated.arc4_init_hi
+    (Array.replicate Generated.arc4_s_len Generated.arc4_s_fill)
+  for x in List.range 256 do
+    if (s0.getD x 0xEE) ≠ BitVec.ofNat 8 x ∨ s0.size ≠ 256 then
+      IO.println s!"FAIL arc4_init S[{x}]={(s0.getD x 0xEE).toNat} size={s0.size} rc4-identity-permutation S[{x}]={x} size=256"
+  for seed in List.range 6 do
+    let klen := [1, 3, 5, 16, 255, 256].getD seed 1
+    let key : Bytes := (words (seed + 500) klen).map (·.setWidth 8)
+    if hk : 0 < key.length then
+      let (sK, _) := forRange (fun (x : Array Byte × Byte) i => Generated.arc4_ksa_body key.toArray x.1 i x.2)
+        Generated.arc4_ksa_lo Generated.arc4_ksa_hi (s0, Generated.arc4_ksa_j0)
+      let st0 := Spec.Rc4.init key hk
+      let st0 := { st0 with S := tabulate st0.S }
+      let mut bad := false
+      for x in List.range 256 do
+        if (sK.getD x 0).toNat ≠ st0.S x ∧ !bad then
+          bad := true
+          IO.println s!"FAIL arc4_ksa key={key.map (·.toNat)} after-KSA S[{x}] generated={(sK.getD x 0).toNat} rc4={st0.S x}"
+      -- PRGA from the specification's post-KSA state, 300 steps (i wraps past 255)
+      let mut s : Array Byte := Array.ofFn (n := 256) fun x => BitVec.ofNat 8 (st0.S x.val)
+      let mut i := Generated.arc4_i0
+      let mut j := Generated.arc4_j0
+      let mut st := st0
+      let mut stop := false
+      for n in List.range 300 do
+        if !stop then
+          let ((s', i', j'), o) := Generated.arc4_apply_body s i j 0
+          let (st', k) := Spec.Rc4.next st
+          if o.toNat ≠ k ∨ i'.toNat ≠ st'.i ∨ j'.toNat ≠ st'.j then
+            stop := true
+            IO.println s!"FAIL arc4_next key={key.map (·.toNat)} keystream-byte#{n} generated=(out {o.toNat}, i {i'.toNat}, j {j'.toNat}) rc4=(out {k}, i {st'.i}, j {st'.j})"
+          s := s'; i := i'; j := j'; st := { st' with S := tabulate st'.S }
+  if !Generated.arc4_encrypt_is_xor_map then
+    IO.println "FAIL arc4_encrypt: body is no longer `data.iter().map(|&byte| byte ^ self.next_keystream_byte()).collect()` (no model-level input)"
+  if !Generated.arc4_decrypt_is_encrypt then
+    IO.println "FAIL arc4_decrypt: body is no longer `self.encrypt(data)` (no model-level input)"
+  if !Generated.arc4_new_flow_ok then
+    IO.println "FAIL arc4_new: statement order changed (no model-level input)"
+  -- Salsa20 apply_keystream loop body: with a labelled generator (block n = 64 bytes of value n),
+  -- 150 zero bytes from a fresh cipher (pos = 64) must come out as 64×0, 64×1, 22×2
+  let gen : Spec.Salsa20.S → Bytes → Nat → Spec.Salsa20.S × Bytes × Nat := fun st _ _ =>
+    ({ st with x8 := st.x8 + 1 }, List.replicate 64 (st.x8.setWidth 8), 0)
+  let st0 : Spec.Salsa20.S := ⟨0,0,0,0,0,0,0,0,0,0,0,0,0,0,0,0⟩
+  let (_, outb) := (List.range 150).foldl (fun (acc : (Spec.Salsa20.S × Bytes × Nat) × List Nat) _ =>
+    let ((a, b, c), o) := Generated.salsa_apply_body gen acc.1.1 acc.1.2.1 acc.1.2.2 0
+    ((a, b, c), acc.2 ++ [o.toNat])) ((st0, List.replicate 64 0xEE, 64), [])
+  let wantb := (List.range 150).map (· / 64)
+  if outb ≠ wantb then
+    let k := ((List.range 150).find? fun n => outb.getD n 999 ≠ wantb.getD n 999).getD 0
+    IO.println s!"FAIL salsa_apply_body stream-byte#{k} generated-uses-keystream-byte-of-block={outb.getD k 999} salsa20-stream-uses-block={k / 64} (labelled generator; first refill expected at byte 0, next at 64, 128)"
+  -- hashlittle: length word, empty-input return
+  for n in [0, 1, 12, 13, 0xFFFFFFFF] do
+    if Generated.hashlittle_len n ≠ BitVec.ofNat 32 n then
+      IO.println s!"FAIL hashlittle_len len={n} generated={(Generated.hashlittle_len n).toNat} lookup3-(uint32_t)length={n}"
+    if Generated.hashlittle2_len n ≠ BitVec.ofNat 32 n then
+      IO.println s!"FAIL hashlittle2_len len={n} generated={(Generated.hashlittle2_len n).toNat} lookup3-(uint32_t)length={n}"
+  for seed in List.range 6 do
+    match words (seed + 900) 2 with
+    | [pc, pb] =>
+      let (a, b, c) := Generated.hashlittle_init (Generated.hashlittle_len 0) pc
+      let g := Generated.hashlittle_empty_return a b c
+      if g ≠ Spec.Lookup3.hashlittle [] pc then
+        IO.println s!"FAIL hashlittle_empty_return input=empty initval={pc.toNat} generated={g.toNat} lookup3={(Spec.Lookup3.hashlittle [] pc).toNat}"
+      let (a, b, c) := Generated.hashlittle2_init (Generated.hashlittle2_len 0) pc pb
+      let g := Generated.hashlittle2_empty_return a b c pc pb
+      if g ≠ Spec.Lookup3.hashlittle2 [] pc pb then
+        IO.println s!"FAIL hashlittle2_empty_return input=empty pc={pc.toNat} pb={pb.toNat} generated=({g.1.toNat},{g.2.toNat}) lookup3=({(Spec.Lookup3.hashlittle2 [] pc pb).1.toNat},{(Spec.Lookup3.hashlittle2 [] pc pb).2.toNat})"
+    | _ => pure ()
+  if !Generated.hashlittle_flow_ok then
+    IO.println "FAIL hashlittle: statement order changed (no model-level input)"
+  if !Generated.hashlittle2_flow_ok then
+    IO.println "FAIL hashlittle2_impl: statement order changed (no model-level input)"
   IO.println "search-done"
